@@ -49,13 +49,29 @@ int main() {
 '''
 
 
+REDUCE_MAIN = r'''
+int main() {
+    size_t modes, k;
+    if (scanf("%zu %zu", &modes, &k) != 2) return 2;
+    std::vector<size_t> holes(k);
+    for (size_t i = 0; i < k; i++) scanf("%zu", &holes[i]);
+    std::vector<size_t> r = calculate_reduce_indices(holes, modes);
+    for (size_t i = 0; i < r.size(); i++) printf("%zu ", r[i]);
+    printf("\n");
+    return 0;
+}
+'''
+
+
 def program(which="permanent"):
     """AST of the current /repo source (one clang run per filter, cached per process)"""
     if which not in _PROG:
         p = cx.Program(REPO)
-        src = {"permanent": "src/permanent.cpp", "laplace": "src/permanent_laplace.cpp", "pfaffian": "src/pfaffian.cpp"}[which]
+        src = {"permanent": "src/permanent.cpp", "laplace": "src/permanent_laplace.cpp", "pfaffian": "src/pfaffian.cpp", "reduce": "src/torontonian_common.cpp"}[which]
         if which == "pfaffian":
             p.add(src, "pfaffian_cpp")
+        elif which == "reduce":
+            p.add(src, "calculate_reduce_indices")
         else:
             for f in ({"permanent": "permanent_cpp", "laplace": "permanent_laplace_cpp"}[which], "binomialCoeff", "n_aryGrayCodeCounter"):
                 p.add(src, f)
@@ -67,6 +83,8 @@ def native(which="permanent"):
     if which not in _NATIVE:
         if which == "pfaffian":
             nat = cx.Native(REPO, ["src/pfaffian.cpp"], PFAFF_MAIN, which)
+        elif which == "reduce":
+            nat = cx.Native(REPO, ["src/torontonian_common.cpp"], "#include <vector>\n" + REDUCE_MAIN, which)
         else:
             nat = cx.Native(REPO, ["src/permanent.cpp", "src/permanent_laplace.cpp"], PERM_MAIN, which)
         _NATIVE[which] = nat
@@ -77,7 +95,7 @@ def native(which="permanent"):
 
 def fn_refs(prog, names):
     out = []
-    extra = ["src/matrix.hpp"] if "src/pfaffian.cpp" in prog.sources else ["src/n_aryGrayCodeCounter.hpp", "src/utils.hpp", "src/matrix.hpp"]
+    extra = ["src/matrix.hpp"] if ("src/pfaffian.cpp" in prog.sources or "src/torontonian_common.cpp" in prog.sources) else ["src/n_aryGrayCodeCounter.hpp", "src/utils.hpp", "src/matrix.hpp"]
     for rel in sorted(prog.sources) + extra:
         out.append(core.file_ref(os.path.join(REPO, rel), names))
     return out
@@ -101,6 +119,14 @@ def native_permanent(A, rows, cols, hc, mode="P"):
     elif len(toks) == 2:
         val = complex(float(toks[0]), float(toks[1]))
     return val, ub
+
+
+def native_reduce(holes, modes):
+    code, out, err = native("reduce").run("%d %d\n%s\n" % (modes, len(holes), " ".join(str(int(h)) for h in holes)))
+    ub = ""
+    if "runtime error" in err or "Assertion" in err or code != 0:
+        ub = (err.strip().splitlines() or ["exit code %d" % code])[0][-200:]
+    return [int(t) for t in out.split()], ub
 
 
 def native_pfaffian(M):
